@@ -96,27 +96,45 @@ theorem wasMated_head (d : Bool) (ds : List Bool) (n k : Nat) (hk : k < 2) :
   have h2 : (n + 2) / 2 = n / 2 + 1 := by omega
   cases d <;> simp [wasMated, h1, h2]
 
-/-- Specification of the crossover loop under the operator contract, for a list of pairwise
-distinct oids: the list is returned as it is, nothing outside it is written, the two members of a
-mated pair end with no fitness, the others are untouched. -/
+/-- What both loops of `varAnd` guarantee about their result `r` when run over a list `l` of pairwise
+distinct, allocated oids from state `s`. -/
+structure LoopOut {σ : Type} (s : St) (l : List Nat) (r : Res σ) : Prop where
+  len : r.off.length = l.length
+  next_le : s.next ≤ r.st.next
+  frame : ∀ o, o < s.next → o ∉ l → r.st.heap o = s.heap o
+  mem : ∀ o ∈ r.off, o ∈ l ∨ (s.next ≤ o ∧ o < r.st.next)
+  nodup : r.off.Nodup
+
+theorem LoopOut.lt_next {σ : Type} {s : St} {l : List Nat} {r : Res σ} (h : LoopOut s l r)
+    (hl : ∀ x ∈ l, x < s.next) : ∀ o ∈ r.off, o < r.st.next := by
+  intro o ho
+  rcases h.mem o ho with h1 | h1
+  · have := hl o h1; have := h.next_le; omega
+  · exact h1.2
+
+/-- Specification of the crossover loop under the operator contract, for a list of pairwise distinct
+allocated oids: the result has the same length, consists of members of the list and objects allocated by
+the operators, pairwise distinct; nothing outside the list is written; the two individuals RETURNED for
+a mated pair end with no fitness; the members of the other pairs are returned untouched. -/
 theorem mateLoop_spec {σ : Type} {ops : Ops σ} (hc : OpContract ops) :
-    ∀ (l : List Nat) (ds : List Bool) (t : σ) (s : St) (r : Res σ), l.Nodup →
+    ∀ (l : List Nat) (ds : List Bool) (t : σ) (s : St) (r : Res σ), l.Nodup → (∀ x ∈ l, x < s.next) →
       mateLoop ops t s l ds = some r →
-      r.off = l ∧ r.st.next = s.next ∧ (∀ o, o ∉ l → r.st.heap o = s.heap o) ∧
-      (∀ k (hk : k < l.length),
-         (wasMated ds l.length k = true → (r.st.heap l[k]).fit = none) ∧
-         (wasMated ds l.length k = false → r.st.heap l[k] = s.heap l[k]))
-  | [], ds, t, s, r, _, h => by
-    simp only [mateLoop, Option.some.injEq] at h
-    subst h; simp
-  | [a], ds, t, s, r, _, h => by
+      LoopOut s l r ∧
+      (∀ k (hk : k < l.length) (hk' : k < r.off.length),
+         (wasMated ds l.length k = true → (r.st.heap r.off[k]).fit = none) ∧
+         (wasMated ds l.length k = false → r.off[k] = l[k] ∧ r.st.heap l[k] = s.heap l[k]))
+  | [], ds, t, s, r, _, _, h => by
     simp only [mateLoop, Option.some.injEq] at h
     subst h
-    refine ⟨rfl, rfl, fun _ _ => rfl, ?_⟩
-    intro k hk
+    exact ⟨⟨rfl, Nat.le_refl _, fun _ _ _ => rfl, by simp, by simp⟩, by simp⟩
+  | [a], ds, t, s, r, _, _, h => by
+    simp only [mateLoop, Option.some.injEq] at h
+    subst h
+    refine ⟨⟨rfl, Nat.le_refl _, fun _ _ _ => rfl, fun o ho => Or.inl ho, by simp⟩, ?_⟩
+    intro k hk hk'
     simp [wasMated_short]
-  | a :: b :: rest, [], t, s, r, _, h => by simp [mateLoop] at h
-  | a :: b :: rest, d :: ds, t, s, r, hnd, h => by
+  | a :: b :: rest, [], t, s, r, _, _, h => by simp [mateLoop] at h
+  | a :: b :: rest, d :: ds, t, s, r, hnd, hl, h => by
     have hnd' : rest.Nodup := by
       have := List.nodup_cons.1 hnd; exact (List.nodup_cons.1 this.2).2
     have hab : a ≠ b := by
@@ -125,76 +143,171 @@ theorem mateLoop_spec {σ : Type} {ops : Ops σ} (hc : OpContract ops) :
       intro hm; have := (List.nodup_cons.1 hnd).1; exact this (by simp [hm])
     have hbr : b ∉ rest := by
       have := List.nodup_cons.1 hnd; exact (List.nodup_cons.1 this.2).1
+    have ha : a < s.next := hl a (by simp)
+    have hb : b < s.next := hl b (by simp)
+    have hrest : ∀ x ∈ rest, x < s.next := fun x hx => hl x (by simp [hx])
     cases d with
     | true =>
       simp only [mateLoop, if_true] at h
-      rw [hc.mate_fst, hc.mate_snd] at h
+      have hnx := hc.mate_next t s.heap s.next a b
+      have hf := hc.mate_fst t s.heap s.next a b
+      have hs := hc.mate_snd t s.heap s.next a b
+      have hds := hc.mate_distinct t s.heap s.next a b hab
+      have hfrm := hc.mate_frame t s.heap s.next a b
+      generalize ops.mate t s.heap s.next a b = r0 at h hnx hf hs hds hfrm
       split at h
       · simp at h
       next x hrec =>
         simp only [Option.some.injEq] at h
-        obtain ⟨hoff, hnext, hframe, hidx⟩ := mateLoop_spec hc rest ds _ _ x hnd' hrec
-        simp only at hnext hframe hidx
-        have hs1n : x.st.next = s.next := hnext
+        obtain ⟨hout, hidx⟩ := mateLoop_spec hc rest ds _ _ x hnd'
+          (fun y hy => by have := hrest y hy; show y < r0.next; omega) hrec
+        have hxnext : r0.next ≤ x.st.next := hout.next_le
+        have hxframe : ∀ o, o < r0.next → o ∉ rest →
+            x.st.heap o = delFit (delFit r0.heap r0.fst) r0.snd o := hout.frame
+        have hxmem : ∀ o ∈ x.off, o ∈ rest ∨ (r0.next ≤ o ∧ o < x.st.next) := hout.mem
+        -- the returned objects are not in `rest` and are allocated
+        have hfr : r0.fst ∉ rest ∧ r0.fst < r0.next := by
+          rcases hf with e | e | e
+          · rw [e]; exact ⟨har, by omega⟩
+          · rw [e]; exact ⟨hbr, by omega⟩
+          · exact ⟨fun hm => by have := hrest _ hm; omega, e.2⟩
+        have hsr : r0.snd ∉ rest ∧ r0.snd < r0.next := by
+          rcases hs with e | e | e
+          · rw [e]; exact ⟨har, by omega⟩
+          · rw [e]; exact ⟨hbr, by omega⟩
+          · exact ⟨fun hm => by have := hrest _ hm; omega, e.2⟩
+        have hfx : r0.fst ∉ x.off := by
+          intro hm
+          rcases hxmem _ hm with e | e
+          · exact hfr.1 e
+          · omega
+        have hsx : r0.snd ∉ x.off := by
+          intro hm
+          rcases hxmem _ hm with e | e
+          · exact hsr.1 e
+          · omega
         subst h
-        refine ⟨by simp [hoff], by simp [hs1n], ?_, ?_⟩
-        · intro o ho
-          have hoa : o ≠ a := by intro e; exact ho (by simp [e])
-          have hob : o ≠ b := by intro e; exact ho (by simp [e])
-          have hor : o ∉ rest := by intro e; exact ho (by simp [e])
+        refine ⟨⟨by simp [hout.len], by show s.next ≤ x.st.next; omega, ?_, ?_, ?_⟩, ?_⟩
+        · intro o ho hnot
+          have hoa : o ≠ a := by intro e; exact hnot (by simp [e])
+          have hob : o ≠ b := by intro e; exact hnot (by simp [e])
+          have hor : o ∉ rest := by intro e; exact hnot (by simp [e])
+          have hof : o ≠ r0.fst := by
+            rcases hf with e | e | e
+            · rw [e]; exact hoa
+            · rw [e]; exact hob
+            · omega
+          have hos : o ≠ r0.snd := by
+            rcases hs with e | e | e
+            · rw [e]; exact hoa
+            · rw [e]; exact hob
+            · omega
           show x.st.heap o = s.heap o
-          rw [hframe o hor, delFit_other _ _ _ hob, delFit_other _ _ _ hoa,
-            hc.mate_frame _ _ _ _ _ hoa hob]
-        · intro k hk
-          match k, hk with
-          | 0, _ =>
+          rw [hxframe o (by omega) hor, delFit_other _ _ _ hos, delFit_other _ _ _ hof, hfrm o hoa hob ho]
+        · intro o ho
+          show o ∈ a :: b :: rest ∨ (s.next ≤ o ∧ o < x.st.next)
+          simp only [List.mem_cons] at ho
+          rcases ho with e | e | e
+          · subst e
+            rcases hf with e | e | e
+            · exact Or.inl (by simp [e])
+            · exact Or.inl (by simp [e])
+            · exact Or.inr ⟨e.1, by omega⟩
+          · subst e
+            rcases hs with e | e | e
+            · exact Or.inl (by simp [e])
+            · exact Or.inl (by simp [e])
+            · exact Or.inr ⟨e.1, by omega⟩
+          · rcases hxmem o e with h1 | h1
+            · exact Or.inl (by simp [h1])
+            · exact Or.inr ⟨by omega, h1.2⟩
+        · show (r0.fst :: r0.snd :: x.off).Nodup
+          refine List.nodup_cons.2 ⟨?_, List.nodup_cons.2 ⟨hsx, hout.nodup⟩⟩
+          intro hm
+          rcases List.mem_cons.1 hm with e | e
+          · exact hds e
+          · exact hfx e
+        · intro k hk hk'
+          match k, hk, hk' with
+          | 0, _, _ =>
             simp only [List.getElem_cons_zero, List.length_cons, wasMated_head _ _ _ 0 (by omega)]
-            refine ⟨fun _ => ?_, fun hf => by simp at hf⟩
-            show (x.st.heap a).fit = none
-            rw [hframe a har]
+            refine ⟨fun _ => ?_, fun hf' => by simp at hf'⟩
+            show (x.st.heap r0.fst).fit = none
+            rw [hxframe _ hfr.2 hfr.1]
             exact delFit_fit_none _ _ _ (by simp)
-          | 1, _ =>
+          | 1, _, _ =>
             simp only [List.getElem_cons_succ, List.getElem_cons_zero, List.length_cons,
               wasMated_head _ _ _ 1 (by omega)]
-            refine ⟨fun _ => ?_, fun hf => by simp at hf⟩
-            show (x.st.heap b).fit = none
-            rw [hframe b hbr]
+            refine ⟨fun _ => ?_, fun hf' => by simp at hf'⟩
+            show (x.st.heap r0.snd).fit = none
+            rw [hxframe _ hsr.2 hsr.1]
             simp
-          | k + 2, hk =>
-            have hk' : k < rest.length := by simpa using hk
+          | k + 2, hk, hk' =>
+            have hk1 : k < rest.length := by simpa using hk
+            have hk2 : k < x.off.length := by simpa using hk'
             simp only [List.getElem_cons_succ, List.length_cons, wasMated_succ2]
-            have hm : rest[k] ∈ rest := List.getElem_mem hk'
+            have hm : rest[k] ∈ rest := List.getElem_mem hk1
             have hka : rest[k] ≠ a := by intro e; exact har (e ▸ hm)
             have hkb : rest[k] ≠ b := by intro e; exact hbr (e ▸ hm)
-            refine ⟨fun ht => (hidx k hk').1 ht, fun hf => ?_⟩
+            have hkf : rest[k] ≠ r0.fst := by intro e; exact hfr.1 (e ▸ hm)
+            have hks : rest[k] ≠ r0.snd := by intro e; exact hsr.1 (e ▸ hm)
+            refine ⟨fun ht => (hidx k hk1 hk2).1 ht, fun hf' => ?_⟩
+            obtain ⟨e1, e2⟩ := (hidx k hk1 hk2).2 hf'
+            refine ⟨e1, ?_⟩
             show x.st.heap rest[k] = s.heap rest[k]
-            rw [(hidx k hk').2 hf, delFit_other _ _ _ hkb, delFit_other _ _ _ hka,
-              hc.mate_frame _ _ _ _ _ hka hkb]
+            rw [e2]
+            show delFit (delFit r0.heap r0.fst) r0.snd rest[k] = _
+            rw [delFit_other _ _ _ hks, delFit_other _ _ _ hkf, hfrm _ hka hkb (hrest _ hm)]
     | false =>
       simp only [mateLoop, Bool.false_eq_true, if_false] at h
       split at h
       · simp at h
       next x hrec =>
         simp only [Option.some.injEq] at h
-        obtain ⟨hoff, hnext, hframe, hidx⟩ := mateLoop_spec hc rest ds _ s x hnd' hrec
+        obtain ⟨hout, hidx⟩ := mateLoop_spec hc rest ds _ s x hnd' hrest hrec
+        have hax : a ∉ x.off := by
+          intro hm
+          rcases hout.mem _ hm with e | e
+          · exact har e
+          · omega
+        have hbx : b ∉ x.off := by
+          intro hm
+          rcases hout.mem _ hm with e | e
+          · exact hbr e
+          · omega
         subst h
-        refine ⟨by simp [hoff], by simp [hnext], ?_, ?_⟩
+        refine ⟨⟨by simp [hout.len], hout.next_le, ?_, ?_, ?_⟩, ?_⟩
+        · intro o ho hnot
+          exact hout.frame o ho (fun e => hnot (by simp [e]))
         · intro o ho
-          have hor : o ∉ rest := by intro e; exact ho (by simp [e])
-          exact hframe o hor
-        · intro k hk
-          match k, hk with
-          | 0, _ =>
+          show o ∈ a :: b :: rest ∨ _
+          simp only [List.mem_cons] at ho
+          rcases ho with e | e | e
+          · exact Or.inl (by simp [e])
+          · exact Or.inl (by simp [e])
+          · rcases hout.mem o e with h1 | h1
+            · exact Or.inl (by simp [h1])
+            · exact Or.inr h1
+        · show (a :: b :: x.off).Nodup
+          refine List.nodup_cons.2 ⟨?_, List.nodup_cons.2 ⟨hbx, hout.nodup⟩⟩
+          intro hm
+          rcases List.mem_cons.1 hm with e | e
+          · exact hab e
+          · exact hax e
+        · intro k hk hk'
+          match k, hk, hk' with
+          | 0, _, _ =>
             simp only [List.getElem_cons_zero, List.length_cons, wasMated_head _ _ _ 0 (by omega)]
-            refine ⟨fun hf => by simp at hf, fun _ => hframe a har⟩
-          | 1, _ =>
+            exact ⟨fun hf' => by simp at hf', fun _ => ⟨trivial, hout.frame a ha har⟩⟩
+          | 1, _, _ =>
             simp only [List.getElem_cons_succ, List.getElem_cons_zero, List.length_cons,
               wasMated_head _ _ _ 1 (by omega)]
-            refine ⟨fun hf => by simp at hf, fun _ => hframe b hbr⟩
-          | k + 2, hk =>
-            have hk' : k < rest.length := by simpa using hk
+            exact ⟨fun hf' => by simp at hf', fun _ => ⟨trivial, hout.frame b hb hbr⟩⟩
+          | k + 2, hk, hk' =>
+            have hk1 : k < rest.length := by simpa using hk
+            have hk2 : k < x.off.length := by simpa using hk'
             simp only [List.getElem_cons_succ, List.length_cons, wasMated_succ2]
-            exact hidx k hk'
+            exact hidx k hk1 hk2
 
 /-- A long-enough decision list always lets the crossover loop finish. -/
 theorem mateLoop_isSome {σ : Type} (ops : Ops σ) :
@@ -208,89 +321,141 @@ theorem mateLoop_isSome {σ : Type} (ops : Ops σ) :
     cases d with
     | true =>
       simp only [mateLoop, if_true]
-      have := mateLoop_isSome ops rest ds (ops.mate t s.heap a b).tape
-        { s with heap := delFit (delFit (ops.mate t s.heap a b).heap (ops.mate t s.heap a b).fst)
-                  (ops.mate t s.heap a b).snd, log := s.log ++ [Ev.mate a b] } h'
       split
-      · next hn => simp [hn] at this
+      · next hn => exact absurd hn (Option.ne_none_iff_isSome.2 (mateLoop_isSome ops rest ds _ _ h'))
       · simp
     | false =>
       simp only [mateLoop, Bool.false_eq_true, if_false]
-      have := mateLoop_isSome ops rest ds t s h'
       split
-      · next hn => simp [hn] at this
+      · next hn => exact absurd hn (Option.ne_none_iff_isSome.2 (mateLoop_isSome ops rest ds _ _ h'))
       · simp
 
 /-! ### mutLoop -/
 
 theorem mutLoop_spec {σ : Type} {ops : Ops σ} (hc : OpContract ops) :
-    ∀ (l : List Nat) (ds : List Bool) (t : σ) (s : St) (r : Res σ), l.Nodup →
+    ∀ (l : List Nat) (ds : List Bool) (t : σ) (s : St) (r : Res σ), l.Nodup → (∀ x ∈ l, x < s.next) →
       mutLoop ops t s l ds = some r →
-      r.off = l ∧ r.st.next = s.next ∧ (∀ o, o ∉ l → r.st.heap o = s.heap o) ∧
-      (∀ k (hk : k < l.length),
-         (ds[k]? = some true → (r.st.heap l[k]).fit = none) ∧
-         (ds[k]? = some false → r.st.heap l[k] = s.heap l[k]))
-  | [], ds, t, s, r, _, h => by
+      LoopOut s l r ∧
+      (∀ k (hk : k < l.length) (hk' : k < r.off.length),
+         (ds[k]? = some true → (r.st.heap r.off[k]).fit = none) ∧
+         (ds[k]? = some false → r.off[k] = l[k] ∧ r.st.heap l[k] = s.heap l[k]))
+  | [], ds, t, s, r, _, _, h => by
     simp only [mutLoop, Option.some.injEq] at h
-    subst h; simp
-  | a :: rest, [], t, s, r, _, h => by simp [mutLoop] at h
-  | a :: rest, d :: ds, t, s, r, hnd, h => by
+    subst h
+    exact ⟨⟨rfl, Nat.le_refl _, fun _ _ _ => rfl, by simp, by simp⟩, by simp⟩
+  | a :: rest, [], t, s, r, _, _, h => by simp [mutLoop] at h
+  | a :: rest, d :: ds, t, s, r, hnd, hl, h => by
     have hnd' : rest.Nodup := (List.nodup_cons.1 hnd).2
     have har : a ∉ rest := (List.nodup_cons.1 hnd).1
+    have ha : a < s.next := hl a (by simp)
+    have hrest : ∀ x ∈ rest, x < s.next := fun x hx => hl x (by simp [hx])
     cases d with
     | true =>
       simp only [mutLoop, if_true] at h
-      rw [hc.mutate_ret] at h
+      have hnx := hc.mutate_next t s.heap s.next a
+      have hret := hc.mutate_ret t s.heap s.next a
+      have hfrm := hc.mutate_frame t s.heap s.next a
+      generalize ops.mutate t s.heap s.next a = r0 at h hnx hret hfrm
       split at h
       · simp at h
       next x hrec =>
         simp only [Option.some.injEq] at h
-        obtain ⟨hoff, hnext, hframe, hidx⟩ := mutLoop_spec hc rest ds _ _ x hnd' hrec
-        simp only at hnext hframe hidx
+        obtain ⟨hout, hidx⟩ := mutLoop_spec hc rest ds _ _ x hnd'
+          (fun y hy => by have := hrest y hy; show y < r0.next; omega) hrec
+        have hxnext : r0.next ≤ x.st.next := hout.next_le
+        have hxframe : ∀ o, o < r0.next → o ∉ rest → x.st.heap o = delFit r0.heap r0.ret o := hout.frame
+        have hxmem : ∀ o ∈ x.off, o ∈ rest ∨ (r0.next ≤ o ∧ o < x.st.next) := hout.mem
+        have hrr : r0.ret ∉ rest ∧ r0.ret < r0.next := by
+          rcases hret with e | e
+          · rw [e]; exact ⟨har, by omega⟩
+          · exact ⟨fun hm => by have := hrest _ hm; omega, e.2⟩
+        have hrx : r0.ret ∉ x.off := by
+          intro hm
+          rcases hxmem _ hm with e | e
+          · exact hrr.1 e
+          · omega
         subst h
-        refine ⟨by simp [hoff], by simp [hnext], ?_, ?_⟩
-        · intro o ho
-          have hoa : o ≠ a := by intro e; exact ho (by simp [e])
-          have hor : o ∉ rest := by intro e; exact ho (by simp [e])
+        refine ⟨⟨by simp [hout.len], by show s.next ≤ x.st.next; omega, ?_, ?_, ?_⟩, ?_⟩
+        · intro o ho hnot
+          have hoa : o ≠ a := by intro e; exact hnot (by simp [e])
+          have hor : o ∉ rest := by intro e; exact hnot (by simp [e])
+          have hof : o ≠ r0.ret := by
+            rcases hret with e | e
+            · rw [e]; exact hoa
+            · omega
           show x.st.heap o = s.heap o
-          rw [hframe o hor, delFit_other _ _ _ hoa, hc.mutate_frame _ _ _ _ hoa]
-        · intro k hk
-          match k, hk with
-          | 0, _ =>
+          rw [hxframe o (by omega) hor, delFit_other _ _ _ hof, hfrm o hoa ho]
+        · intro o ho
+          show o ∈ a :: rest ∨ (s.next ≤ o ∧ o < x.st.next)
+          simp only [List.mem_cons] at ho
+          rcases ho with e | e
+          · subst e
+            rcases hret with e | e
+            · exact Or.inl (by simp [e])
+            · exact Or.inr ⟨e.1, by omega⟩
+          · rcases hxmem o e with h1 | h1
+            · exact Or.inl (by simp [h1])
+            · exact Or.inr ⟨by omega, h1.2⟩
+        · show (r0.ret :: x.off).Nodup
+          exact List.nodup_cons.2 ⟨hrx, hout.nodup⟩
+        · intro k hk hk'
+          match k, hk, hk' with
+          | 0, _, _ =>
             simp only [List.getElem_cons_zero, List.getElem?_cons_zero]
-            refine ⟨fun _ => ?_, fun hf => by simp at hf⟩
-            show (x.st.heap a).fit = none
-            rw [hframe a har]
+            refine ⟨fun _ => ?_, fun hf' => by simp at hf'⟩
+            show (x.st.heap r0.ret).fit = none
+            rw [hxframe _ hrr.2 hrr.1]
             simp
-          | k + 1, hk =>
-            have hk' : k < rest.length := by simpa using hk
+          | k + 1, hk, hk' =>
+            have hk1 : k < rest.length := by simpa using hk
+            have hk2 : k < x.off.length := by simpa using hk'
             simp only [List.getElem_cons_succ, List.getElem?_cons_succ]
-            have hm : rest[k] ∈ rest := List.getElem_mem hk'
+            have hm : rest[k] ∈ rest := List.getElem_mem hk1
             have hka : rest[k] ≠ a := by intro e; exact har (e ▸ hm)
-            refine ⟨fun ht => (hidx k hk').1 ht, fun hf => ?_⟩
+            have hkr : rest[k] ≠ r0.ret := by intro e; exact hrr.1 (e ▸ hm)
+            refine ⟨fun ht => (hidx k hk1 hk2).1 ht, fun hf' => ?_⟩
+            obtain ⟨e1, e2⟩ := (hidx k hk1 hk2).2 hf'
+            refine ⟨e1, ?_⟩
             show x.st.heap rest[k] = s.heap rest[k]
-            rw [(hidx k hk').2 hf, delFit_other _ _ _ hka, hc.mutate_frame _ _ _ _ hka]
+            rw [e2]
+            show delFit r0.heap r0.ret rest[k] = _
+            rw [delFit_other _ _ _ hkr, hfrm _ hka (hrest _ hm)]
     | false =>
       simp only [mutLoop, Bool.false_eq_true, if_false] at h
       split at h
       · simp at h
       next x hrec =>
         simp only [Option.some.injEq] at h
-        obtain ⟨hoff, hnext, hframe, hidx⟩ := mutLoop_spec hc rest ds _ _ x hnd' hrec
+        obtain ⟨hout, hidx⟩ := mutLoop_spec hc rest ds _ s x hnd' hrest hrec
+        have hax : a ∉ x.off := by
+          intro hm
+          rcases hout.mem _ hm with e | e
+          · exact har e
+          · omega
         subst h
-        refine ⟨by simp [hoff], by simp [hnext], ?_, ?_⟩
+        refine ⟨⟨by simp [hout.len], hout.next_le, ?_, ?_, ?_⟩, ?_⟩
+        · intro o ho hnot
+          exact hout.frame o ho (fun e => hnot (by simp [e]))
         · intro o ho
-          have hor : o ∉ rest := by intro e; exact ho (by simp [e])
-          exact hframe o hor
-        · intro k hk
-          match k, hk with
-          | 0, _ =>
+          show o ∈ a :: rest ∨ _
+          simp only [List.mem_cons] at ho
+          rcases ho with e | e
+          · exact Or.inl (by simp [e])
+          · rcases hout.mem o e with h1 | h1
+            · exact Or.inl (by simp [h1])
+            · exact Or.inr h1
+        · show (a :: x.off).Nodup
+          exact List.nodup_cons.2 ⟨hax, hout.nodup⟩
+        · intro k hk hk'
+          match k, hk, hk' with
+          | 0, _, _ =>
             simp only [List.getElem_cons_zero, List.getElem?_cons_zero]
-            refine ⟨fun hf => by simp at hf, fun _ => hframe a har⟩
-          | k + 1, hk =>
-            have hk' : k < rest.length := by simpa using hk
+            exact ⟨fun hf' => by simp at hf', fun _ => ⟨trivial, hout.frame a ha har⟩⟩
+          | k + 1, hk, hk' =>
+            have hk1 : k < rest.length := by simpa using hk
+            have hk2 : k < x.off.length := by simpa using hk'
             simp only [List.getElem_cons_succ, List.getElem?_cons_succ]
-            exact hidx k hk'
+            exact hidx k hk1 hk2
 
 theorem mutLoop_isSome {σ : Type} (ops : Ops σ) :
     ∀ (l : List Nat) (ds : List Bool) (t : σ) (s : St), l.length ≤ ds.length →
@@ -302,17 +467,13 @@ theorem mutLoop_isSome {σ : Type} (ops : Ops σ) :
     cases d with
     | true =>
       simp only [mutLoop, if_true]
-      have := mutLoop_isSome ops rest ds (ops.mutate t s.heap a).tape
-        { s with heap := delFit (ops.mutate t s.heap a).heap (ops.mutate t s.heap a).ret,
-                 log := s.log ++ [Ev.mutate a] } h'
       split
-      · next hn => simp [hn] at this
+      · next hn => exact absurd hn (Option.ne_none_iff_isSome.2 (mutLoop_isSome ops rest ds _ _ h'))
       · simp
     | false =>
       simp only [mutLoop, Bool.false_eq_true, if_false]
-      have := mutLoop_isSome ops rest ds t s h'
       split
-      · next hn => simp [hn] at this
+      · next hn => exact absurd hn (Option.ne_none_iff_isSome.2 (mutLoop_isSome ops rest ds _ _ h'))
       · simp
 
 /-- The mutation loop only finishes when it had a decision for every index. -/
@@ -330,6 +491,78 @@ theorem mutLoop_none_of_short {σ : Type} (ops : Ops σ) :
       have hh' : ds.length < rest.length := by simpa using hh
       cases d <;> simp [mutLoop, ih _ _ _ hh']
 
+/-! ### varAnd, all facts at once -/
+
+theorem varAnd_master {σ : Type} {ops : Ops σ} (hc : OpContract ops) {t : σ} {s : St} {pop : List Nat}
+    {mateD mutD : List Bool} {r : Res σ} (h : varAnd ops t s pop mateD mutD = some r) :
+    r.off.length = pop.length ∧ s.next ≤ r.st.next ∧ (∀ o, o < s.next → r.st.heap o = s.heap o) ∧
+    (∀ o ∈ r.off, s.next ≤ o ∧ o < r.st.next) ∧ r.off.Nodup ∧
+    (∀ k (hk : k < pop.length) (hk' : k < r.off.length),
+      ((wasMated mateD pop.length k = true ∨ mutD[k]? = some true) → (r.st.heap r.off[k]).fit = none) ∧
+      ((∀ p ∈ pop, p < s.next) → wasMated mateD pop.length k = false ∧ mutD[k]? = some false →
+        r.st.heap r.off[k] = s.heap pop[k]) ∧
+      (mutD[k]? = some true ∨ mutD[k]? = some false)) := by
+  simp only [varAnd] at h
+  split at h
+  · simp at h
+  next m hm =>
+    have hloff : (cloneAll s pop).2 = List.range' s.next pop.length := cloneAll_off s pop
+    have hnd : (cloneAll s pop).2.Nodup := by rw [hloff]; exact List.nodup_range' 1
+    have hcn : (cloneAll s pop).1.next = s.next + pop.length := cloneAll_next s pop
+    have hll : ∀ x ∈ (cloneAll s pop).2, x < (cloneAll s pop).1.next := by
+      intro x hx; rw [hloff, List.mem_range'_1] at hx; omega
+    have hlge : ∀ x ∈ (cloneAll s pop).2, s.next ≤ x := by
+      intro x hx; rw [hloff, List.mem_range'_1] at hx; omega
+    obtain ⟨o1, i1⟩ := mateLoop_spec hc _ _ _ _ m hnd hll hm
+    have hml := o1.lt_next hll
+    obtain ⟨o2, i2⟩ := mutLoop_spec hc _ _ _ _ r o1.nodup hml h
+    have hrl := o2.lt_next hml
+    have hlen1 : m.off.length = pop.length := by rw [o1.len, hloff]; simp
+    have hmge : ∀ x ∈ m.off, s.next ≤ x := by
+      intro x hx
+      rcases o1.mem x hx with e | e
+      · exact hlge x e
+      · omega
+    refine ⟨by rw [o2.len, hlen1], by have := o1.next_le; have := o2.next_le; omega, ?_, ?_, o2.nodup, ?_⟩
+    · intro o ho
+      have hnl : o ∉ (cloneAll s pop).2 := fun e => by have := hlge o e; omega
+      have hnm : o ∉ m.off := fun e => by have := hmge o e; omega
+      rw [o2.frame o (by have := o1.next_le; omega) hnm, o1.frame o (by omega) hnl, cloneAll_frame _ _ _ ho]
+    · intro o ho
+      refine ⟨?_, hrl o ho⟩
+      rcases o2.mem o ho with e | e
+      · exact hmge o e
+      · have := o1.next_le; omega
+    · intro k hk hk'
+      have hk1 : k < (cloneAll s pop).2.length := by rw [hloff]; simpa using hk
+      have hk2 : k < m.off.length := by omega
+      have hel : (cloneAll s pop).2[k] = s.next + k := by simp [hloff]
+      have h1 := i1 k hk1 hk2
+      have h2 := i2 k hk2 hk'
+      have hlen0 : (cloneAll s pop).2.length = pop.length := by rw [hloff]; simp
+      rw [hlen0] at h1
+      have hmut : mutD[k]? = some true ∨ mutD[k]? = some false := by
+        have hlen' : m.off.length ≤ mutD.length := by
+          rcases Nat.lt_or_ge mutD.length m.off.length with hlt | hge
+          · rw [mutLoop_none_of_short ops _ _ _ _ hlt] at h
+            simp at h
+          · exact hge
+        have hk3 : k < mutD.length := by omega
+        rw [List.getElem?_eq_getElem hk3]
+        cases mutD[k] <;> simp
+      refine ⟨?_, ?_, hmut⟩
+      · rintro (hmated | hmutd)
+        · rcases hmut with hm1 | hm0
+          · exact h2.1 hm1
+          · obtain ⟨e1, e2⟩ := h2.2 hm0
+            rw [e1, e2]; exact h1.1 hmated
+        · exact h2.1 hmutd
+      · intro hpop ⟨hnm, hnu⟩
+        obtain ⟨e1, e2⟩ := h2.2 hnu
+        obtain ⟨e3, e4⟩ := h1.2 hnm
+        rw [e1, e2, e3, e4, hel]
+        exact cloneAll_copy s pop hpop k hk
+
 /-! ### varOr -/
 
 /-- What the property says about one offspring `o` produced under choice `c`
@@ -342,7 +575,7 @@ def OffSpec (pop : List Nat) (h0 h' : Heap) (c : Choice) (o : Nat) : Prop :=
 
 theorem varOrStep_spec {σ : Type} {ops : Ops σ} (hc : OpContract ops) (pop : List Nat) (t : σ) (s : St)
     (c : Choice) (t' : σ) (s' : St) (o : Nat) (h : varOrStep ops pop t s c = some (t', s', o)) :
-    o = s.next ∧ o < s'.next ∧ (∀ q, q < s.next → s'.heap q = s.heap q) ∧
+    s.next ≤ o ∧ o < s'.next ∧ (∀ q, q < s.next → s'.heap q = s.heap q) ∧
       OffSpec pop s.heap s'.heap c o := by
   cases c with
   | cx i j =>
@@ -350,27 +583,38 @@ theorem varOrStep_spec {σ : Type} {ops : Ops σ} (hc : OpContract ops) (pop : L
     split at h
     next p q hp hq =>
       simp only [clone_oid, clone_next, Option.some.injEq, Prod.mk.injEq] at h
-      rw [hc.mate_fst] at h
+      have hnx := hc.mate_next t (clone (clone s p).1 q).1.heap (s.next + 1 + 1) s.next (s.next + 1)
+      have hf := hc.mate_fst t (clone (clone s p).1 q).1.heap (s.next + 1 + 1) s.next (s.next + 1)
+      have hfrm := hc.mate_frame t (clone (clone s p).1 q).1.heap (s.next + 1 + 1) s.next (s.next + 1)
+      generalize ops.mate t (clone (clone s p).1 q).1.heap (s.next + 1 + 1) s.next (s.next + 1) = r0
+        at h hnx hf hfrm
       obtain ⟨_, hs, ho⟩ := h
       subst hs; subst ho
-      refine ⟨rfl, by simp; omega, ?_, by simp [OffSpec]⟩
+      have hlo : s.next ≤ r0.fst ∧ r0.fst < r0.next := by
+        rcases hf with e | e | e <;> omega
+      refine ⟨hlo.1, hlo.2, ?_, by simp [OffSpec]⟩
       intro q' hq'
       show delFit _ _ q' = _
-      rw [delFit_other _ _ _ (by omega), hc.mate_frame _ _ _ _ _ (by omega) (by omega),
+      rw [delFit_other _ _ _ (by omega), hfrm _ (by omega) (by omega) (by omega),
         clone_heap_old _ _ _ (by simp; omega), clone_heap_old _ _ _ (by omega)]
     · simp at h
   | mutn i =>
     simp only [varOrStep] at h
     split at h
     next p hp =>
-      simp only [clone_oid, Option.some.injEq, Prod.mk.injEq] at h
-      rw [hc.mutate_ret] at h
+      simp only [clone_oid, clone_next, Option.some.injEq, Prod.mk.injEq] at h
+      have hnx := hc.mutate_next t (clone s p).1.heap (s.next + 1) s.next
+      have hret := hc.mutate_ret t (clone s p).1.heap (s.next + 1) s.next
+      have hfrm := hc.mutate_frame t (clone s p).1.heap (s.next + 1) s.next
+      generalize ops.mutate t (clone s p).1.heap (s.next + 1) s.next = r0 at h hnx hret hfrm
       obtain ⟨_, hs, ho⟩ := h
       subst hs; subst ho
-      refine ⟨rfl, by simp, ?_, by simp [OffSpec]⟩
+      have hlo : s.next ≤ r0.ret ∧ r0.ret < r0.next := by
+        rcases hret with e | e <;> omega
+      refine ⟨hlo.1, hlo.2, ?_, by simp [OffSpec]⟩
       intro q' hq'
       show delFit _ _ q' = _
-      rw [delFit_other _ _ _ (by omega), hc.mutate_frame _ _ _ _ (by omega),
+      rw [delFit_other _ _ _ (by omega), hfrm _ (by omega) (by omega),
         clone_heap_old _ _ _ (by omega)]
     · simp at h
   | rep i =>
@@ -380,7 +624,7 @@ theorem varOrStep_spec {σ : Type} {ops : Ops σ} (hc : OpContract ops) (pop : L
       simp only [clone_oid, Option.some.injEq, Prod.mk.injEq] at h
       obtain ⟨_, hs, ho⟩ := h
       subst hs; subst ho
-      refine ⟨rfl, by simp, ?_, ?_⟩
+      refine ⟨Nat.le_refl _, by simp, ?_, ?_⟩
       · intro q' hq'
         exact clone_heap_old _ _ _ (by omega)
       · exact ⟨p, hp, by simp⟩
